@@ -551,19 +551,36 @@ def r_foreign_predicate(c):
         n += 1
         p1, p2 = ps
 
-        def rooted(e, p):
-            return any(isinstance(x, ast.Name) and x.id == p for x in ast.walk(e))
+        def rooted(e, ps_):
+            return any(isinstance(x, ast.Name) and x.id in ps_ for x in ast.walk(e))
         bad = []
-        for call in ast.walk(fd):
-            if not isinstance(call, ast.Call):
-                continue
-            f = ast.unparse(call.func)
-            if f.startswith("self.") or f.split(".")[-1] in STRUCTURAL_CALLS \
-                    or f.startswith("super()"):
-                continue
-            args = list(call.args) + [k.value for k in call.keywords]
-            if any(rooted(a, p1) for a in args) and any(rooted(a, p2) for a in args):
-                bad.append(call)
+        mi_ = m.module_of(fd)
+
+        def scan(f_, s1, s2, depth):
+            """s1/s2: names rooted in the first/second operand.  A private helper
+            of this module or class that receives both is part of the handler: its
+            body is held to the same rule, with its own parameter names"""
+            f_ = m.inlined(f_)
+            for call in ast.walk(f_):
+                if not isinstance(call, ast.Call):
+                    continue
+                f = ast.unparse(call.func)
+                args = list(call.args) + [k.value for k in call.keywords]
+                both = any(rooted(a, s1) for a in args) and any(rooted(a, s2) for a in args)
+                tgt = m._private_target(call, f_, mi_, ci) if both else None
+                if tgt is not None and depth < 2:
+                    bind = m._bind_args(call, tgt) or {}
+                    t1 = {k for k, v in bind.items() if rooted(v, s1) and not rooted(v, s2)}
+                    t2 = {k for k, v in bind.items() if rooted(v, s2) and not rooted(v, s1)}
+                    if t1 and t2:
+                        scan(tgt, t1, t2, depth + 1)
+                        continue
+                if f.startswith("self.") or f.split(".")[-1] in STRUCTURAL_CALLS \
+                        or f.startswith("super()"):
+                    continue
+                if both:
+                    bad.append(call)
+        scan(fd, {p1}, {p2}, 0)
         c.check(not bad, "R04-PAIRING", f"EqualityComparer.{mn}",
                 "compares-structurally-not-by-predicate", m.loc(ci.module, fd),
                 f"`{m.frag(bad[0], 70) if bad else ''}` decides (part of) the comparison "
